@@ -49,6 +49,44 @@ def run_sort_case(case, prof, B, reverse, cache, tmpdir, occ=0):
     return None
 
 
+def run_sort_spelling_case(case, prof, B, reverse, tmpdir, occ=0):
+    """The same sort with the key SPELLED differently: field index, one-element tuple / list, index 0 and the empty
+    string as a field name (both falsy).  Key field(s) first, id last: header (a, b, id)."""
+    import petl as etl
+    if case['key'] == 'none':
+        return None
+    _, rows = build_table(case['rows'], case['key'], prof, occ)
+    # rows are [id, a?, b?] (ragged): move the id to the end only for rectangular rows, otherwise keep the layout
+    order = case['desc'] if reverse else case['asc']
+    msgs = []
+
+    def run(label, hdr, rws, key):
+        want = [tuple(hdr)] + [tuple(rws[i - 1]) for i in order]
+        try:
+            v = etl.sort([hdr] + rws, key, reverse=reverse, buffersize=B, tempdir=tmpdir)
+            p1 = [tuple(r) for r in v]
+            p2 = [tuple(r) for r in v]
+        except Exception as e:
+            msgs.append('%s raised %r' % (label, e))
+            return
+        if p1 != want or p2 != want:
+            msgs.append('%s delivered %r (second pass %r), spec %r' % (label, p1, p2 if p2 != p1 else 'same', want))
+    hdr = ['id', 'a', 'b']
+    spell = {'a': [1, ('a',), ['a'], (1,)], 'ab': [(1, 2), ['a', 'b'], ('a', 2)], 'ba': [(2, 1), ['b', 'a'], (2, 'a')]}[case['key']]
+    for k in spell:
+        run('key=%r on header (id, a, b)' % (k,), hdr, rows, k)
+    if all(len(r) == 3 for r in rows):
+        rot = [[r[1], r[2], r[0]] for r in rows]
+        spell0 = {'a': [0, (0,), 'a'], 'ab': [(0, 1), (0, 'b')], 'ba': [(1, 0), ('b', 0)]}[case['key']]
+        for k in spell0:
+            run('key=%r on header (a, b, id)' % (k,), ['a', 'b', 'id'], rot, k)
+        spell_e = {'a': [u'', (u'',)], 'ab': [(u'', 'b')], 'ba': [('b', u'')]}[case['key']]
+        for k in spell_e:
+            run("key=%r on header ('', b, id)" % (k,), [u'', 'b', 'id'], rot, k)
+            run("key=%r on header (id, '', b)" % (k,), ['id', u'', 'b'], rows, k)
+    return '; '.join(msgs) if msgs else None
+
+
 def bsizes(n):
     return [None] + list(range(1, n + 2))
 
@@ -64,6 +102,14 @@ def check_sort_cases(chk, cases, profiles, full):
                 prof = PROFILES[pname]
                 for B in bsizes(n):
                     for reverse in (False, True):
+                        if B in (None, 1, n):
+                            msg = run_sort_spelling_case(case, prof, B, reverse, tmp, occ=ci)
+                            chk.count(('sort-spelling', ci, B, reverse))
+                            chk.replayed += 1
+                            if msg:
+                                chk.violation({'op': 'sort', 'key': case['key'], 'kind': 'key-spelling'},
+                                              'sort(reverse=%s, buffersize=%s) profile=%s rows=%r: %s' % (reverse, B, pname, case['rows'], msg),
+                                              {'kind': 'sort-spelling', 'case': case, 'profile': pname, 'B': B, 'reverse': reverse, 'occ': ci})
                         for cache in (True, False):
                             msg = run_sort_case(case, prof, B, reverse, cache, tmp, occ=ci)
                             chk.count(('sort', ci, B, reverse, cache))
@@ -108,6 +154,40 @@ def run_merge_case(case, prof, B, reverse, presorted, tmpdir):
         return 'mergesort delivered %r, spec %r' % (got, want)
     if ref != want:
         return 'sort(cat(..)) delivered %r, spec %r' % (ref, want)
+    # rarely used arguments: a non-default `missing` (short rows are padded with it BEFORE keying, in cat as in
+    # mergesort) and an explicit `header` that moves the key field - the property's own identity mergesort == sort(cat)
+    if not presorted:
+        for kw in ({'missing': prof.conc(2)}, {'missing': u'zz'}, {'header': list(reversed(hdr))}, {'header': hdr[1:] + ['extra'] + hdr[:1]},
+                   {'header': list(reversed(hdr)), 'missing': prof.conc(1)}):
+            if key is None and 'header' in kw:
+                continue
+            # with `missing`: ragged variants of the tables (rows cut to 1, 2, .. cells in rotation)
+            tabs = tables if 'missing' not in kw else [[t[0]] + [r[:1 + (i + j) % len(hdr)] for j, r in enumerate(t[1:])]
+                                                       for i, t in enumerate(tables)]
+            try:
+                got = [tuple(r) for r in etl.mergesort(*tabs, key=key, reverse=reverse, buffersize=B, tempdir=tmpdir, **kw)]
+                ref = [tuple(r) for r in etl.sort(etl.cat(*tabs, **kw), key, reverse=reverse)]
+            except Exception as e:
+                return 'with %r raised %r' % (kw, e)
+            if got != ref:
+                return 'mergesort(.., %s) over %r delivered %r, sort(cat(.., %s), key) delivers %r' % (kw, tabs, got, kw, ref)
+            if 'missing' in kw and 'header' not in kw and key is not None:
+                # presorted=True with ragged inputs: each input sorted as padded, then its trailing filler cells are
+                # cut off again (still in key order once filled); merged as they are
+                m = kw['missing']
+
+                def cut(r):
+                    r = list(r)
+                    while len(r) > 1 and r[-1] is m:
+                        r.pop()
+                    return r
+                try:
+                    pres = [[t[0]] + [cut(r) for r in etl.data(etl.sort(etl.stack(t, missing=m), key, reverse=reverse))] for t in tabs]
+                    got = [tuple(r) for r in etl.mergesort(*pres, key=key, reverse=reverse, presorted=True, missing=m)]
+                except Exception as e:
+                    return 'presorted with %r raised %r' % (kw, e)
+                if got != ref:
+                    return 'mergesort(presorted=True, %s) over %r delivered %r, sort(cat(.., %s), key) delivers %r' % (kw, pres, got, kw, ref)
     return None
 
 
@@ -232,7 +312,7 @@ def record_traces(n_examples, seed):
     go()
     # a few LARGE tables: many duplicate keys, buffersizes that spill into > 64 / > 128 chunk files, chunks of > 256 rows
     rng = random.Random(seed)
-    for n, B in ((130, 1), (343, 3), (343, 5), (700, 300), (520, 2)):
+    for n, B in ((130, 1), (343, 3), (343, 5), (700, 300), (520, 2), (1300, 2), (1100, 1), (2100, 2)):
         keys = [rng.choice([None, 1, 2, 3, 2.5, u'x']) for _ in range(n)]
         t = [['id', 'a', 'b']] + [[ID_BASE + i + 1, k, i % 3] for i, k in enumerate(keys)]
         for reverse in (False, True):
@@ -411,6 +491,8 @@ def replay(path):
     with common.private_tmp() as tmp:
         if rp['kind'] == 'sort':
             msg = run_sort_case(rp['case'], PROFILES[rp['profile']], rp['B'], rp['reverse'], rp['cache'], tmp, rp['occ'])
+        elif rp['kind'] == 'sort-spelling':
+            msg = run_sort_spelling_case(rp['case'], PROFILES[rp['profile']], rp['B'], rp['reverse'], tmp, rp['occ'])
         elif rp['kind'] == 'mergesortx':
             msg = run_mergex_case(rp['case'], PROFILES[rp['profile']], rp['reverse'], rp['perm'])
         elif rp['kind'] == 'mergesort':
